@@ -179,6 +179,11 @@ PMul(P_0, R_0) == Let2(P_0, R_0, LAMBDA P, R :
   TLCEval([i \in 1..Len(P) |-> [j \in 1..Len(P) |-> IF j > i THEN Q0 ELSE PConvI(P, R, i - 1, j - 1, i - 1)]]))
 PIntL(P_0) == Let1(P_0, LAMBDA P :
   TLCEval([i \in 1..Len(P) |-> [j \in 1..Len(P) |-> IF j = 1 THEN Q0 ELSE QMul(QF(1, j - 1), P[i][j - 1])]]))
+PDiffA(P_0) == Let1(P_0, LAMBDA P :
+  TLCEval([i \in 1..Len(P) |-> [j \in 1..Len(P) |-> IF i = Len(P) THEN Q0 ELSE QMul(QI(i), P[i + 1][j])]]))
+PNeg(P) == PScale(QI(-1), P)
+PSub(P, R) == PAdd(P, PNeg(R))
+POne(N) == PMonoA(N, 0)
 (* scalar polynomial -> d x d BiPoly (multiples of the identity)                       *)
 BOfScalar(P_0, d) == Let1(P_0, LAMBDA P :
   TLCEval([i \in 1..Len(P) |-> [j \in 1..Len(P) |-> MScalar(d, P[i][j])]]))
